@@ -34,7 +34,8 @@ VERR = 'Raised (EUser "ValueError"%string)'
 def ctype(t):
     if t in (Z, B, PS, PL): return {Z: "Z", B: "bool", PS: "pstr", PL: "pl"}[t]
     if t[0] == "opt": return "(option %s)" % ctype(t[1])
-    if t[0] == "list": return "(list %s)" % ctype(t[1])
+    if t[0] in ("list", "set"): return "(list %s)" % ctype(t[1])
+    if t[0] == "dict": return "(list (%s * %s))" % (ctype(t[1]), ctype(t[2]))
     if t[0] == "tuple": return "(" + " * ".join(ctype(x) for x in t[1]) + ")"
     raise Unsupported("no Coq type for %r" % (t,))
 
@@ -44,7 +45,7 @@ def dflt(t):
     if t == PS: return "[]"
     if t == PL: return "PI"
     if t[0] == "opt": return "None"
-    if t[0] == "list": return "[]"
+    if t[0] in ("list", "set", "dict"): return "[]"
     if t[0] == "tuple": return "(" + ", ".join(dflt(x) for x in t[1]) + ")"
     raise Unsupported("no default for %r" % (t,))
 
@@ -58,7 +59,6 @@ def eqb(t):
 
 ORACLES = {  # callee text (method / function name) -> (answer constructor, result type)
     "self.sub.subsystem_compiler": ("OLps", LPS),
-    "left_map_over_a": ("OLps", LPS),
     "self._candidate_decompositions": ("OPairs", T_list(T_tup([PS, PS]))),
     "self._all_interleavings_preserving": ("OLLps", T_list(LPS)),
     "self._all_interleavings_preserving4": ("OLLps", T_list(LPS)),
@@ -121,7 +121,8 @@ class SFn:
         txt = ast.unparse(a) if a is not None else None
         tbl = {"int": Z, "bool": B, "PauliString": PS, "list[PauliString]": LPS, "PauliString | None": T_opt(PS), "list[PauliString] | None": T_opt(LPS),
                "list[tuple[PauliString, PauliString]]": T_list(T_tup([PS, PS])), "str | None": T_opt(PS), "str": PS,
-               "list[tuple[PauliString | None, list[int]]]": T_list(T_tup([T_opt(PS), T_list(Z)])), "dict[tuple[int, str], bool]": ("dict", T_tup([Z, T_opt(PS)]), B)}
+               "list[tuple[PauliString | None, list[int]]]": T_list(T_tup([T_opt(PS), T_list(Z)])), "dict[tuple[int, str], bool]": ("dict", T_tup([Z, T_opt(PS)]), B),
+               "deque[PauliString]": LPS, "dict[str, tuple[str, str, PauliString]]": ("dict", PS, T_tup([PS, PS, PS]))}
         if txt not in tbl: bad(node, "annotation %r" % txt)
         return tbl[txt]
 
@@ -228,6 +229,10 @@ class SFn:
                 c = "(opt_is_some %s)" % a
                 return (c if isinstance(op, ast.IsNot) else "(negb %s)" % c), B, ga
             a, ta, ga = E(e.left); b, tb, gb = E(r)
+            if isinstance(op, (ast.In, ast.NotIn)):
+                if tb[0] not in ("set", "list") or tb[1] != ta: bad(e, "membership test of %r in %r" % (ta, tb))
+                c = "(mem_b %s %s %s)" % (eqb(ta), a, b)
+                return (c if isinstance(op, ast.In) else "(negb %s)" % c), B, ga + gb
             if isinstance(op, (ast.Eq, ast.NotEq)):
                 if ta != tb: bad(e, "== of %r and %r" % (ta, tb))
                 c = "(%s %s %s)" % (eqb(ta), a, b)
@@ -255,6 +260,12 @@ class SFn:
             ps = [E(v) for v in e.elts]
             if any(t != ps[0][1] for _, t, _ in ps): bad(e, "list literal of mixed types")
             return "[" + "; ".join(c for c, _, _ in ps) + "]", T_list(ps[0][1]), [x for _, _, g in ps for x in g]
+        if isinstance(e, ast.Set):
+            ps = [E(v) for v in e.elts]
+            if not ps or any(t != PS for _, t, _ in ps): bad(e, "set literal (only a set of strings)")
+            out = "[]"
+            for c, _, _ in ps: out = "(set_add_b pstr_eqb %s %s)" % (c, out)
+            return out, ("set", PS), [x for _, _, g in ps for x in g]
         if isinstance(e, ast.Tuple):
             ps = [E(v) for v in e.elts]
             return tup(c for c, _, _ in ps), T_tup([t for _, t, _ in ps]), [x for _, _, g in ps for x in g]
@@ -266,6 +277,9 @@ class SFn:
                 lc, lt, lg = E(s.lower)
                 if lt != Z: bad(e, "slice bound")
                 return "(slice_from %s %s)" % (c, lc), t, g + lg
+            if t[0] == "dict":
+                kc, kg = self.expr_want(e.slice, t[1], env, nar)
+                return "(unopt %s (kdict_get %s %s %s))" % (dflt(t[2]), eqb(t[1]), c, kc), t[2], g + kg + [("(opt_is_some (kdict_get %s %s %s))" % (eqb(t[1]), c, kc), "Raised EKey")]
             ic, it, ig = E(e.slice)
             if it != Z: bad(e, "index must be int")
             if t == PS: return "(list_get PI %s %s)" % (c, ic), PL, g + ig + [("(idx_ok %s %s)" % (c, ic), "Raised EIndex")]
@@ -301,6 +315,10 @@ class SFn:
                 return "(rev %s)" % c, t, g
             c, t, g = E(a)
             if t[0] != "list": bad(e, "list of %r" % (t,))
+            return c, t, g
+        if src == "deque" and len(e.args) == 1:
+            c, t, g = E(e.args[0])
+            if t[0] != "list": bad(e, "deque of %r" % (t,))
             return c, t, g
         if src == "str" and len(e.args) == 1:
             c, t, g = E(e.args[0])
@@ -377,7 +395,9 @@ class SFn:
         if fn is None: return None, None
         if len(e.args) != len(fn.params): bad(e, "arity of %s" % src)
         cs, gs = [], []
-        if fn.fuel: cs.append("fuel")
+        if fn.fuel:
+            self.fuel = True
+            cs.append("fuel")
         for fld in fn.fields:
             if obj is not None:
                 cs.append(obj[fld]); continue
@@ -576,7 +596,18 @@ class SFn:
             return self.guard(g, "(seqo (unloop (fold_left (fun (o_ : outcome %s %s) (it_ : %s) => seqo o_ (fun %s => %suncont %s)) %s (Next %s))) (fun %s => %s))" % (
                 self.stype2(), ctype(self.ret), ctype(t[1]), self.sp(), binds, body, c, self.st(), self.sp(), cont)), e3
         if isinstance(s, ast.While):
-            bad(s, "while loop")
+            # while c: body — on fuel (Refine/PySem.while_loop): OutOfFuel when the fuel does not suffice
+            if s.orelse: bad(s, "while-else")
+            self.fuel = True
+            stored = self.assigned_in(s.body)
+            for nm in stored:
+                if env.get(nm) is not None: self.mark.add(nm)
+            nar_l = frozenset(set(nar) - stored)
+            c, g = self.truth(s.test, env, nar_l)
+            if g: bad(s, "loop condition must be unguarded")
+            body, eb = self.block(s.body, env, nar_l, None)
+            cont, e3 = self.block(rest, env, nar_l, k)
+            return "(seqo (while_loop fuel (fun %s => %s) (fun %s => %s) %s) (fun %s => %s))" % (self.sp(), c, self.sp(), body, self.st(), self.sp(), cont), e3
         if isinstance(s, ast.Continue): return "Cont %s" % self.st(), env
         if isinstance(s, ast.Break): return "Brk %s" % self.st(), env
         if isinstance(s, ast.Raise):
@@ -594,9 +625,22 @@ class SFn:
             c, t, g = self.expr(v, env, nar)
             return self.guard(g, "Ret %s" % self.coerce(c, t, self.ret, s)), env
         if isinstance(s, ast.Try):
-            if len(s.body) != 1 or len(s.handlers) != 1 or s.orelse or s.finalbody or not isinstance(s.body[0], ast.Assign) or self.oracle_of(s.body[0].value) is None \
+            if len(s.body) != 1 or len(s.handlers) != 1 or s.orelse or s.finalbody or not isinstance(s.body[0], ast.Assign) \
                or not (isinstance(s.handlers[0].type, ast.Name) and s.handlers[0].name is None):
-                bad(s, "try shape (only: one assignment from an untranslated helper, one handler)")
+                bad(s, "try shape (only: one assignment from a call, one handler)")
+            if self.oracle_of(s.body[0].value) is None:
+                # try: x = F(...) except E: handler   with F a translated function: the handler runs when F raised E
+                a = s.body[0]
+                fn, args = self.resolve(a.value, env, nar)
+                if fn is None or fn.valok is not None or fn.uses_orc or len(a.targets) != 1 or not isinstance(a.targets[0], ast.Name): bad(s, "try body")
+                exn = s.handlers[0].type.id
+                h, eh = self.block(s.handlers[0].body, env, nar, None)
+                if not self.leaves(s.handlers[0].body): bad(s, "an exception handler that falls through")
+                cs, gs = args
+                al, env2 = self.assign_alias(a.targets[0].id, fn.ret, s, env)
+                body, e3 = R(env2)
+                return self.guard(gs, "(match (%s %s) with FRet r_ => (let v_%s := r_ in %s) | FRaised e_ => (if exn_is e_ \"%s\" then %s else Raised e_) | FNone => Raised EType | FNonInt => NonInt | FOutOfFuel => OutOfFuel end)" % (
+                    fn.coq, " ".join(cs), al, body, exn, h)), e3
             exn = s.handlers[0].type.id
             h, eh = self.block(s.handlers[0].body, env, nar, None)
             if not self.leaves(s.handlers[0].body): bad(s, "an exception handler that falls through")
@@ -608,6 +652,20 @@ class SFn:
             txt, _ = self.oracle_bind(a.value, env, nar, lambda r: "(let v_%s := %s in %s)" % (al, r, body),
                                       on_raise='(if exn_is e_ "%s" then %s else Raised e_)' % (exn, h))
             return txt, e3
+        if isinstance(s, ast.Expr) and isinstance(s.value, ast.Call) and isinstance(s.value.func, ast.Attribute) and isinstance(s.value.func.value, ast.Name) \
+           and s.value.func.attr in ("add", "reverse") and not s.value.keywords:
+            x = s.value.func.value.id
+            al = env.get(x)
+            if al is None: bad(s, "method of an unassigned container")
+            t = self.tv(al)
+            if s.value.func.attr == "reverse":
+                if t[0] != "list" or s.value.args: bad(s, "reverse")
+                body, e3 = R(env)
+                return "(let v_%s := (rev v_%s) in %s)" % (al, al, body), e3
+            if t[0] != "set" or len(s.value.args) != 1: bad(s, "add")
+            c, g = self.expr_want(s.value.args[0], t[1], env, nar)
+            body, e3 = R(env)
+            return self.guard(g, "(let v_%s := (set_add_b %s %s v_%s) in %s)" % (al, eqb(t[1]), c, al, body)), e3
         if isinstance(s, ast.Expr) and isinstance(s.value, ast.Call) and isinstance(s.value.func, ast.Attribute) and s.value.func.attr == "append" \
            and isinstance(s.value.func.value, ast.Name) and len(s.value.args) == 1 and not s.value.keywords:
             x = s.value.func.value.id
@@ -636,6 +694,12 @@ class SFn:
                 self.listalias.add(x)
                 return R(env)
             nar2 = frozenset(set(nar) - {x})
+            if isinstance(v, ast.Call) and isinstance(v.func, ast.Attribute) and v.func.attr == "popleft" and isinstance(v.func.value, ast.Name) and not v.args and not v.keywords:
+                qa = env.get(v.func.value.id)
+                if qa is None or self.tv(qa)[0] != "list": bad(s, "popleft of a non-deque")
+                al, env2 = self.assign_alias(x, self.tv(qa)[1], s, env)
+                body, e3 = self.block(rest, env2, nar2, k)
+                return "(match v_%s with [] => Raised EIndex | hd_ :: tl_ => let v_%s := hd_ in let v_%s := tl_ in %s end)" % (qa, al, qa, body), e3
             if self.oracle_of(v) is not None:
                 _, t = self.oracle_of(v)
                 al, env2 = self.assign_alias(x, want or t, s, env)
@@ -747,7 +811,7 @@ class SFn:
 
 class SearchTranslator:
     WANT = [("_tensor", None), ("_multiply", None), ("_commutes", None), ("_left_part", None), ("_right_part", None), ("_ad_apply", None),
-            ("_nested_commutator_result", None), ("_sequence_to_paulie_orientation", None),
+            ("_nested_commutator_result", None), ("_sequence_to_paulie_orientation", None), ("_key", None), ("left_map_over_a", None),
             ("extend_left", "OptimalPauliCompiler"), ("_left_factor_from_sequence", "OptimalPauliCompiler"),
             ("_case3_best_reordering", "OptimalPauliCompiler"), ("_bfs_case3", "OptimalPauliCompiler"), ("compile", "OptimalPauliCompiler"), ("compile_target", None)]
     def __init__(self, repo):
@@ -809,6 +873,8 @@ Fixpoint first_non_I_from (k : Z) (p : pstr) : option Z := match p with [] => No
 Definition first_non_I (p : pstr) : option Z := first_non_I_from 0 p.
 Fixpoint kdict_get {K A} (eqb : K -> K -> bool) (d : list (K * A)) (k : K) : option A :=
   match d with [] => None | (k', v) :: t => if eqb k' k then Some v else kdict_get eqb t k end.
+Definition mem_b {A} (eqb : A -> A -> bool) (x : A) (l : list A) : bool := existsb (eqb x) l.
+Definition set_add_b {A} (eqb : A -> A -> bool) (x : A) (l : list A) : list A := if mem_b eqb x l then l else l ++ [x].
 (* itertools.permutations(range(3)) *)
 Definition perms3 : list (Z * Z * Z) := [(0, 1, 2); (0, 2, 1); (1, 0, 2); (1, 2, 0); (2, 0, 1); (2, 1, 0)].
 (* answers of the untranslated helpers (subsystem_compiler, left_map_over_a, _candidate_decompositions, _all_interleavings_preserving[4]):
